@@ -161,6 +161,7 @@ func Load(repo, tier string, tests bool, extraEnv ...string) (*Ctx, error) {
 		return nil, fmt.Errorf("no package of %s among %d loaded", Module, len(pkgs))
 	}
 	c.AllFuncs = ssautil.AllFunctions(prog)
+	IndexFieldStores(c.AllFuncs)
 	if wp := c.ByPath[Module+"/"+WitnessDirName]; wp != nil {
 		nroot-- // the example package is not part of the repository
 		for _, f := range wp.Syntax {
@@ -421,7 +422,38 @@ func (c *Ctx) FileOf(rel, suffix string) *ast.File {
 // ---------------------------------------------------------------- rename-tolerant anchors
 
 // typeStr renders a type with package names as qualifiers.
+// transparent rewrites t with the unexported named types of the own package
+// whose underlying type is not a struct or an interface replaced by that
+// underlying type (type serviceID uint32, type registry map[serviceID]Info):
+// introducing such a name changes nothing an anchor described by its type
+// should notice.
+func transparent(t types.Type, own *types.Package, depth int) types.Type {
+	if depth > 6 {
+		return t
+	}
+	switch x := t.(type) {
+	case *types.Named:
+		if x.Obj().Pkg() == own && own != nil && !x.Obj().Exported() {
+			switch x.Underlying().(type) {
+			case *types.Struct, *types.Interface:
+				return t
+			}
+			return transparent(x.Underlying(), own, depth+1)
+		}
+	case *types.Map:
+		return types.NewMap(transparent(x.Key(), own, depth+1), transparent(x.Elem(), own, depth+1))
+	case *types.Slice:
+		return types.NewSlice(transparent(x.Elem(), own, depth+1))
+	case *types.Pointer:
+		return types.NewPointer(transparent(x.Elem(), own, depth+1))
+	case *types.Chan:
+		return types.NewChan(x.Dir(), transparent(x.Elem(), own, depth+1))
+	}
+	return t
+}
+
 func typeStr(t types.Type, own *types.Package) string {
+	t = transparent(t, own, 0)
 	return types.TypeString(t, func(p *types.Package) string {
 		if p == own {
 			return ""
